@@ -190,7 +190,7 @@ def prepare(pid, ob=None, quiet=False):
             r = subprocess.run(["lake", "env", "lean", audit], cwd=LEAN, capture_output=True, text=True)
             out = r.stdout + r.stderr
             cur = None
-            for m in re.finditer(r"'([^']+)' depends on axioms: \[([^\]]*)\]|'([^']+)' does not depend on any axioms", out):
+            for m in re.finditer(r"'(\S+)' depends on axioms: \[([^\]]*)\]|'(\S+)' does not depend on any axioms", out):
                 if m.group(1):
                     ob.axioms[m.group(1)] = [a.strip() for a in m.group(2).replace("\n", " ").split(",") if a.strip()]
                 else:
